@@ -101,6 +101,20 @@ fn do_trace<P: PT>(opts: &HashMap<String, String>) -> Value {
     r
 }
 
+fn do_rerun<P: PT>(opts: &HashMap<String, String>) -> Value {
+    let evs: Vec<Value> = std::fs::read_to_string(opts.get("events").expect("--events FILE"))
+        .unwrap()
+        .lines()
+        .filter(|l| !l.trim().is_empty())
+        .map(|l| serde_json::from_str(l).unwrap())
+        .collect();
+    let path = opts.get("trace").expect("--trace FILE");
+    let mut f = std::io::BufWriter::new(std::fs::File::create(path).unwrap());
+    let r = trace::rerun::<P>(&evs, &mut f);
+    f.flush().unwrap();
+    r
+}
+
 fn do_alg<P: PT>(opts: &HashMap<String, String>) -> Value {
     let seed = opts.get("seed").map(|s| s.parse().unwrap()).unwrap_or(1u64);
     let mode = opts.get("mode").map(|s| s.as_str()).unwrap_or("quick");
@@ -157,6 +171,10 @@ fn main() {
         "trace" => {
             let t = opts.get("type").map(|s| s.as_str()).unwrap_or("u32");
             with_type!(t, do_trace(&opts))
+        }
+        "rerun" => {
+            let t = opts.get("type").map(|s| s.as_str()).unwrap_or("u32");
+            with_type!(t, do_rerun(&opts))
         }
         "alg" => {
             let t = opts.get("type").map(|s| s.as_str()).unwrap_or("u32");
